@@ -658,6 +658,11 @@ def eval_term(t, env):
     bound = env.get('__terms__') or {}
     if key(t) in bound:
         return Fraction(bound[key(t)])
+    hook = env.get('__hook__')
+    if hook is not None:
+        hv = hook(t)
+        if hv is not None:
+            return Fraction(hv)
     if t[0] == 'bin' and t[1] in ('Mod', 'FloorDiv'):
         a, b = eval_term(t[2], env), eval_term(t[3], env)
         if b == 0:
@@ -676,6 +681,12 @@ def eval_term(t, env):
                     return Rat.const(Fraction(env[nm]))
             if isinstance(a, Sym) and a.name.startswith('<') and a.name[1:-1] in bound:
                 return Rat.const(Fraction(bound[a.name[1:-1]]))
+            at = atom_term(a)
+            if at is not None and not (at[0] == 'param' and at[1] not in env):
+                try:
+                    return Rat.const(eval_term(at, env))       # an atom standing for a call / index term: evaluated in turn
+                except ValueError:
+                    return None
             return None
         r = subst(t[1], f)
         if r.is_const():
